@@ -98,7 +98,7 @@ ToV3Plain(p, names) ==
    O(If(Has(p, "in"), KV("in", Opt(p, "in"))) @@ If(Has(p, "name"), KV("name", Opt(p, "name")))
      @@ If(IsTrue(p, "required") \/ Opt(p, "in") = S("path"), KV("required", B(TRUE)))
      @@ If(Has(p, "x-nullable"), KV("x-nullable", Opt(p, "x-nullable")))     \* extensions stay on the parameter object
-     @@ KV("schema", ToV3Schema(Restrict(p, ParamKeys), names)))
+     @@ KV("schema", ToV3Schema(Restrict(p, ParamKeys \cup {"allowEmptyValue"}), names)))    \* allowEmptyValue travels inside the schema
 (* ToV3Parameter, body branch *)
 ToV3Body(p, names, consumes) ==
    O(If(IsTrue(p, "required"), KV("required", B(TRUE)))
@@ -107,7 +107,7 @@ ToV3Body(p, names, consumes) ==
 (* ToV3Parameter, formData branch: the property schema (with `required: [name]` as a marker) *)
 ToV3Form(p, names) ==
    LET isFile == Opt(p, "type") = S("file")
-       keys == (Keys(p) \cap (ParamKeys \ {"items"})) \cup (IF isFile THEN {"format"} ELSE {})
+       keys == (Keys(p) \cap ((ParamKeys \ {"items"}) \cup {"allowEmptyValue"})) \cup (IF isFile THEN {"format"} ELSE {})
    IN O([k \in keys |-> CASE k = "type" -> IF isFile THEN S("string") ELSE p.m[k]
                           [] k = "format" -> IF isFile THEN S("binary") ELSE p.m[k]
                           [] OTHER -> p.m[k]]
@@ -293,10 +293,10 @@ FromV3Param(p, comps, names) ==
                    THEN O(KV("$panic", S("nil schema")))        \* F-C17-14 (repaired in the tree): the nil schema was dereferenced
                    ELSE O(base @@ [k \in Keys(p.m["schema"]) \cap
                                         (IF "back_binary_param_type_format_only" \in Dev THEN {"type", "format"}
-                                         ELSE {"type", "format", "enum", "minLength", "maxLength", "pattern", "default"})
+                                         ELSE {"type", "format", "enum", "minLength", "maxLength", "pattern", "default", "allowEmptyValue"})
                                     |-> p.m["schema"].m[k]])   \* the string keywords are copied from the v3 schema
                 ELSE IF Has(r, "$ref") THEN O(base @@ KV("schema", r))
-                ELSE O(base @@ [k \in Keys(r) \cap ParamKeys |-> r.m[k]])
+                ELSE O(base @@ [k \in Keys(r) \cap (ParamKeys \cup {"allowEmptyValue"}) |-> r.m[k]])
 
 (* FromV3RequestBodyFormData *)
 FromV3FormData(sc, comps, names) ==
@@ -306,7 +306,7 @@ FromV3FormData(sc, comps, names) ==
     ELSE LET v == props.m[n]
              reqd == IF "back_form_required_in_property" \in Dev THEN n \in StrSet(Opt(v, "required"))
                      ELSE n \in StrSet(Opt(sc, "required"))
-             keep == (Keys(v) \cap (ParamKeys \ {"items", "format"}))
+             keep == (Keys(v) \cap ((ParamKeys \ {"items", "format"}) \cup {"allowEmptyValue"}))
                         \cup (IF Has(v, "format") /\ "back_form_no_format" \notin Dev /\ v.m["format"] # S("binary") THEN {"format"} ELSE {})
              it == IF Has(v, "items") THEN FromV3Schema(v.m["items"], EmptyO, names) ELSE Nul
          IN O(KV("in", S("formData")) @@ KV("name", S(n)) @@ If(reqd, KV("required", B(TRUE)))
@@ -417,7 +417,7 @@ FromV3Doc(d3, hosts, bases) ==
                      ELSE LET v == schemas.m[n] nm == StrOf(Opt(v, "x-formData-name"), n) IN
                           O(KV("in", S("formData")) @@ KV("name", S(nm))
                             @@ If(nm \in StrSet(Opt(v, "required")), KV("required", B(TRUE)))
-                            @@ [k \in Keys(v) \cap ((ParamKeys \ {"items"}) \cup {"x-nullable"}) |-> v.m[k]]
+                            @@ [k \in Keys(v) \cap ((ParamKeys \ {"items"}) \cup {"x-nullable", "allowEmptyValue"}) |-> v.m[k]]
                             @@ If(Has(v, "items"), KV("items", FromV3Schema(v.m["items"], comps, names))))
        defN == {n \in Keys(schemas) : ~IsParam(conv(n)) /\ ~sharedForm(n)}
        prmN == Keys(schemas) \ defN
